@@ -611,6 +611,7 @@ _reg(DecodeProp(
 
 TAGS_JUDGED = ["en", "ja", "fr", "und", "zh-Hant", "de"]
 TAGS_REGIONAL = ["en-US", "ja-JP"]      # left unspecified by C18: run, recorded, not judged
+REPORT_REGIONAL = TAGS_REGIONAL + ["ja-Latn", "en-GB"]   # C17: requested between the judged tags; one language throughout
 
 
 NAMES_SOURCE = "ast"
@@ -662,7 +663,7 @@ def _names_from_behaviour(dst):
     for fn in titles:
         for tag in ("en", "ja"):
             ops.append("NM %s 0 %s" % (fn, tag))
-    rng_v = list(range(-130, 131))
+    rng_v = list(range(-130, 131)) + [v for v in S.far_ints() if abs(v) > 130]
     for fn in values:
         for v in rng_v:
             for tag in ("en", "ja"):
@@ -919,6 +920,15 @@ class NamesProp(SimpleProp):
             for v in range(-3, 11):
                 for tag in TAGS_JUDGED + TAGS_REGIONAL:
                     ops.append("NM %s %d %s" % (fn, v, tag))
+        # integers far outside every enumeration (powers of two, small values plus multiples of 2^8/2^16/2^32, the limits of
+        # int32 and int64): the property quantifies over all integers
+        far = S.far_ints()
+        for fn in fns:
+            if fn in NAME_FUNCS_TITLE:
+                continue
+            for v in far:
+                for tag in ("en", "ja", "fr"):
+                    ops.append("NM %s %d %s" % (fn, v, tag))
         # the tag space: every 2-letter tag, the 3-letter tags around "en" and "ja" (they may or may not be canonicalised to
         # them by x/text; the harness reports x/text's classification), tags with script and region, private use, garbage
         az = "abcdefghijklmnopqrstuvwxyz"
@@ -989,6 +999,9 @@ class NamesProp(SimpleProp):
             f = op.split(" ")
             val[(f[1], core.unhx(f[3]).decode())] = int(core.parse_kv(g).get("get", "0"))
         unknown = {"en": "Unknown", "ja": "未定義"}
+        probed = {}
+        for k in res:
+            probed.setdefault((k[0], k[2]), set()).add(k[1])
         for fn in NAME_FUNCS_TITLE:
             for tag in ("en", "ja"):
                 if not res.get((fn, 0, tag)):
@@ -1003,7 +1016,7 @@ class NamesProp(SimpleProp):
                         msgs.append(("%s(%d) has no %s name" % (fn, v, tag), "NM %s %d %s" % (fn, v, tag)))
                 if len(set(names)) != len(names):
                     msgs.append(("%s: two defined values share a %s name: %s" % (fn, tag, names), "NM %s %d %s" % (fn, defined[0], tag)))
-                for v in range(-3, 11):
+                for v in sorted(probed.get((fn, tag), ())):
                     if v not in defined and res.get((fn, v, tag)) != unknown[tag]:
                         msgs.append(("%s(%d) out of range is named %r in %s" % (fn, v, res.get((fn, v, tag)), tag), "NM %s %d %s" % (fn, v, tag)))
         for tag in ("en", "ja"):
@@ -1011,7 +1024,7 @@ class NamesProp(SimpleProp):
             names = [res.get(("SeverityValueOf", v, tag)) for v in defined]
             if not all(names) or len(set(names)) != 5:
                 msgs.append(("severity names in %s: %s" % (tag, names), "NM SeverityValueOf 1 %s" % tag))
-            for v in range(-3, 11):
+            for v in sorted(probed.get(("SeverityValueOf", tag), ())):
                 if v not in defined and res.get(("SeverityValueOf", v, tag)) != unknown[tag]:
                     msgs.append(("SeverityValueOf(%d) out of range is named %r" % (v, res.get(("SeverityValueOf", v, tag))), "NM SeverityValueOf %d %s" % (v, tag)))
         for mod, base in MOD_PAIRS:
@@ -1088,30 +1101,49 @@ class ReportProp(SimpleProp):
                 for suf in sufs:
                     k += 1
                     ops.append("R3 E %s %s" % (["en", "ja", "-"][k % 3], core.hx(vec.v3vec(ver, bt) + suf)))
-        tags = TAGS_JUDGED + TAGS_REGIONAL + ["-"] if tier == "thorough" else ["en", "ja", "fr", "und", "-"]
+        # regional and script variants of the two languages are requested in between (in an order that changes from vector
+        # to vector): which language they resolve to is left open by C18, but a report must be in one language throughout,
+        # and what is requested for one tag must not change what a later request for another tag gets
+        tags = (TAGS_JUDGED if tier == "thorough" else ["en", "ja", "fr", "und"]) + REPORT_REGIONAL + ["-"]
         for v in vecs:
             for L in "BTE":
                 # a report of level L is built from a decoder of level L: keep only its metrics
                 toks = v.split("/")
                 keep = [toks[0]] + [t for t in toks[1:] if any(m[0] == t.split(":")[0] and m[1] <= "BTE".index(L) for m in vec.V3)]
-                for tag in tags:
+                order = list(tags)
+                rng.shuffle(order)
+                for tag in order:
                     ops.append("R3 %s %s %s" % (L, tag, core.hx("/".join(keep))))
         return ops
 
     def keep(self, op):
-        return op.split(" ")[2] not in TAGS_REGIONAL
+        return op.split(" ")[2] not in REPORT_REGIONAL
 
     def expected(self, ops, go):
         """the report schema evaluated by the model on the decoded object and on the scores and severities the
         implementation itself reports for that object (C17 is about which score a field renders, not its value)"""
         mops = []
+        alt = []        # regional tags: the same report in the other language
         for op, g in zip(ops, go):
             d = core.parse_kv(g)
-            if "OWN.s" in d and "OWN.sv" in d and "OWN.r" in d:
-                mops.append("R3W %s %s %s %s" % (op[3:], d["OWN.s"], d["OWN.sv"], d["OWN.r"]))
-            else:
-                mops.append(op)
-        return core.run_sharded(core.MODEL, mops)
+            f = op.split(" ")
+            reg = f[2] in REPORT_REGIONAL
+            if reg:
+                f[2] = "en"
+            body = " ".join(f[1:])
+            own = "OWN.s" in d and "OWN.sv" in d and "OWN.r" in d
+            mops.append("R3W %s %s %s %s" % (body, d["OWN.s"], d["OWN.sv"], d["OWN.r"]) if own else "R3 " + body)
+            if reg:
+                f[2] = "ja"
+                body = " ".join(f[1:])
+                alt.append("R3W %s %s %s %s" % (body, d["OWN.s"], d["OWN.sv"], d["OWN.r"]) if own else "R3 " + body)
+        mo = core.run_sharded(core.MODEL, mops)
+        ao = iter(core.run_sharded(core.MODEL, alt))
+        self._alt = {}
+        for op in ops:
+            if op.split(" ")[2] in REPORT_REGIONAL:
+                self._alt[op] = next(ao)
+        return mo
 
     def cmp(self, g):
         return " ".join(t for t in g.split(" ") if not t.startswith("OWN."))
@@ -1119,8 +1151,17 @@ class ReportProp(SimpleProp):
     def judge_line(self, op, g, m):
         # the model *is* the schema evaluated on the specification's names: a differing field is a violation
         g = self.cmp(g)
-        if op.split(" ")[2] in TAGS_REGIONAL or g == m:
+        if g == m:
             return []
+        if op.split(" ")[2] in REPORT_REGIONAL:
+            if g == getattr(self, "_alt", {}).get(op):
+                return []
+            gd, ed, jd = core.parse_kv(g), core.parse_kv(m), core.parse_kv(self._alt.get(op, ""))
+            ne = [k for k in sorted(set(gd) | set(ed)) if gd.get(k) != ed.get(k) and k != "_"]
+            nj = [k for k in sorted(set(gd) | set(jd)) if gd.get(k) != jd.get(k) and k != "_"]
+            return ["report requested for tag %s is neither the English report (%d fields differ, e.g. %s = %r) nor the Japanese one "
+                    "(%d fields differ, e.g. %s = %r)" % (op.split(" ")[2], len(ne), ne[:1], _txt(gd.get(ne[0])) if ne else "",
+                                                          len(nj), nj[:1], _txt(gd.get(nj[0])) if nj else "")]
         gd, md = core.parse_kv(g), core.parse_kv(m)
         msgs = []
         for k in sorted(set(gd) | set(md)):
